@@ -98,7 +98,8 @@ def gen_case(rng, thorough):
                                     ['MI-numba-randomized', 'Constant'])
     flags['noise'] = rng.random() < 0.5
     flags['batches'] = rng.choice([1, 1, 2])
-    return {'cols': cols, 'label': label, 'flags': flags, 'np_seed': rng.randrange(2 ** 31), 'names': namekind}
+    return {'cols': cols, 'label': label, 'flags': flags, 'np_seed': rng.randrange(2 ** 31), 'names': namekind,
+            'index': rng.choice(['range', 'range', 'range', 'offset', 'str', 'reversed', 'dup'])}
 
 
 # ------------------------------------------------------------------------------------------------ implementation side
@@ -170,6 +171,17 @@ def run_impl(case):
 def _run_impl(case, res, args, lg, cr, np, pd, BatchRankingSummary):
     fl = case['flags']
     df0 = pd.DataFrame({nm: vals for nm, vals in case['cols']})
+    # row labels as a library caller's frame may carry them (a filtered, re-sorted or concatenated frame); the values are what
+    # the property speaks about, so the frames are compared by position
+    ik = case.get('index', 'range')
+    if ik == 'offset':
+        df0.index = range(100, 100 + len(df0))
+    elif ik == 'str':
+        df0.index = [f'r{i}' for i in range(len(df0))]
+    elif ik == 'reversed':
+        df0.index = range(len(df0) - 1, -1, -1)
+    elif ik == 'dup':
+        df0.index = [i // 2 for i in range(len(df0))]
     inp = frame_of(df0)
 
     def single(name, fn):
@@ -514,7 +526,7 @@ def _evaluate(ctx: Ctx, cases, oracle_only=False):
     for c, im, (a, m, o) in zip(cases, impls, spans):
         ctx.evaluations += 1
         fl = c['flags']
-        small = {'cols': c['cols'], 'label': c['label'], 'flags': fl, 'np_seed': c['np_seed'], 'names': c['names']}
+        small = {'cols': c['cols'], 'label': c['label'], 'flags': fl, 'np_seed': c['np_seed'], 'names': c['names'], 'index': c.get('index', 'range')}
         on = [k for k in ('explode', 'sub') if fl[k] is not None] + (['transformers'] if fl['transformers'] != 'none' else []) + \
              (['interactions'] if fl['order'] > 1 else []) + (['noise'] if fl['noise'] else []) + (['3mr'] if '3mr' in fl['heuristic'] else [])
         ctx.count('flags-on:%d' % len(on))
@@ -534,6 +546,7 @@ def _evaluate(ctx: Ctx, cases, oracle_only=False):
         if tr and tr['ok']:
             bad = transform_content(c, tr['out'])
             ctx.count('transform-content-checked')
+            ctx.count('single-constructor-row-labels:' + small['index'])
             if bad:
                 ctx.oracle_fail('transform-rule', f'single:transform: {bad}', small)
         for bi, b in enumerate(im['batches']):
@@ -543,7 +556,8 @@ def _evaluate(ctx: Ctx, cases, oracle_only=False):
         for (tag, _), ok in zip(o, orep):
             if ok != Atom('true'):
                 ctx.oracle_fail('append-only', f'{tag}: the input columns are not an unchanged prefix of the output, or some column does '
-                                'not have exactly one value per row', small)
+                                f'not have exactly one value per row (row labels of the frame handed to the single constructors: {small["index"]}; '
+                                f'input {len(c["cols"][0][1])} rows)', small)
         # ---- rule clauses
         rule_cols = False
         for name, r in im['single'].items():
@@ -649,6 +663,7 @@ def replay(ctx: Ctx, payload):
     c = payload['case']
     if isinstance(c, dict) and 'long' in c:
         evaluate_long(ctx, [c['long']])
+
     else:
         evaluate(ctx, [c])
 
